@@ -1017,7 +1017,17 @@ def gen_quiet_circ(rng, N):
     return dict(N=N, ncb=0, gates=gs, kind="quiet")
 
 
-CIRC_U, CIRC_M, CIRC_N, CIRC_2, CIRC_L, CIRC_Q, CIRC_E = 0, 1, 2, 3, 4, 5, 6
+def gen_bad_native_circ(rng, N):
+    """native gates with one gate the compilers reject somewhere in the middle (or at an end): compile / load_circuit
+    raise after part of the work has been done"""
+    pre = gen_native_circ(rng, N, rng.randint(0, 3))["gates"]
+    post = gen_native_circ(rng, N, rng.randint(0, 2))["gates"]
+    q = rng.sample(range(N), 2)
+    bad = rng.choice([G("CNOT", [q[0]], [q[1]]), G("SNOT", [q[0]]), G("CSIGN", [q[0]], [q[1]]), G("RY", [q[0]], a=0.5), G("SWAP", [q[0], q[1]])])
+    return dict(N=N, ncb=0, gates=pre + [bad] + post, kind="bad-native")
+
+
+CIRC_U, CIRC_M, CIRC_N, CIRC_2, CIRC_L, CIRC_Q, CIRC_E, CIRC_B = 0, 1, 2, 3, 4, 5, 6, 7
 
 
 def gen_world(rng, procs_ok=True):
@@ -1025,7 +1035,7 @@ def gen_world(rng, procs_ok=True):
     ncb = 2
     circs = [gen_unitary_circ(rng, N, rng.randint(1, 5)), gen_meas_circ(rng, N, rng.randint(2, 5), ncb),
              gen_native_circ(rng, N, rng.randint(1, 5)), gen_2q_circ(rng, N, rng.randint(1, 3)),
-             gen_listarg_circ(rng, N, rng.randint(1, 3)), gen_qasm_circ(rng, N, rng.randint(1, 5)), gen_quiet_circ(rng, N)]
+             gen_listarg_circ(rng, N, rng.randint(1, 3)), gen_qasm_circ(rng, N, rng.randint(1, 5)), gen_quiet_circ(rng, N), gen_bad_native_circ(rng, N)]
     cbits = [[rng.randint(0, 1) for _ in range(ncb)], [rng.randint(0, 1) for _ in range(ncb)], [1], []]
     sims = [dict(circ=CIRC_M), dict(circ=CIRC_M, dm=True), dict(circ=CIRC_U)]
     procs = [dict(kind="linear", N=N), dict(kind="circular", N=N, t1=50.0, t2=30.0), dict(kind="cqed", N=N),
@@ -1089,6 +1099,10 @@ def gen_call(rng, inp, family):
         comp = rng.choice([0, 0, 1, 2, 2, 2, 5, 5, 3])
         # (the cavity-QED compiler raises TypeError for shaped two-qubit gates: shapes are mostly given to the spin-chain compilers)
         args = rng.choice([None, None, None] + ARGS_MENU[1:]) if (comp not in (1, 3) or r() < 0.2) else None
+        if r() < 0.2:
+            # a call the compiler rejects part-way (unsupported gate), with per-call args: it must leave the compiler as it was
+            return dict(op="compile", comp=comp, circ=CIRC_B, sm=rng.choice([None, "ASAP"]),
+                        args=rng.choice([None] + ARGS_MENU[1:] * 2), **{"as": rng.choice(["circ", "gates"])})
         return dict(op="compile", comp=comp, circ=CIRC_N, sm=rng.choice([None, "ASAP", "ALAP"]), args=args, **{"as": rng.choice(["circ", "gates"])})
     # processors
     p = rng.choice(inp["_procs"])
@@ -1120,6 +1134,22 @@ def gen_history(rng, maxlen=8, family=None):
         kind0 = inp["procs"][inp["_procs"][0]]["kind"]
         calls.append(dict(op="load", proc=inp["_procs"][0], circ=rng.choice([CIRC_U, CIRC_N]),
                           comp=(rng.choice({"linear": [0, 2], "circular": [5], "cqed": [1, 3], "sc": [4]}[kind0]) if rng.random() < 0.5 else None), sm="ASAP"))
+    if family == "pass" and len(inp["circs"][CIRC_Q]["gates"]) % 2 == 0:
+        calls += [dict(op="qasm", circ=CIRC_Q), dict(op="qasm", circ=CIRC_Q)]      # (no random draw: keeps the stream of the other histories)
+        n = max(n, len(calls) + 1)
+    if family == "sched" and rng.random() < 0.5:
+        # ordinary call, REJECTED call with per-call args (caught), the same ordinary call again
+        c0 = rng.choice([0, 1, 2, 3, 5])
+        good = dict(op="compile", comp=c0, circ=CIRC_N, sm=rng.choice([None, "ASAP"]), args=None, **{"as": "circ"})
+        bad = dict(op="compile", comp=c0, circ=rng.choice([CIRC_B, CIRC_B, CIRC_U]), sm=good["sm"], args=rng.choice(ARGS_MENU[1:]), **{"as": rng.choice(["circ", "gates"])})
+        calls += [dict(good), bad, dict(good)]
+        n = max(n, len(calls) + 1)
+    if family == "proc" and rng.random() < 0.3:
+        # a load the processor rejects, between two ordinary loads
+        p0 = inp["_procs"][0]
+        calls += [dict(op="load", proc=p0, circ=rng.choice([CIRC_B, CIRC_L]), comp=None, sm="ASAP"), dict(op="load", proc=p0, circ=CIRC_N, comp=None, sm="ASAP"),
+                  dict(op="proc_pulses", proc=p0)]
+        n = max(n, len(calls))
     if family == "proc" and rng.random() < 0.6:
         # reuse of the processor for a circuit that drives no pulse, then inspection of what it holds
         p0 = inp["_procs"][0]
@@ -1277,11 +1307,13 @@ def targeted_histories():
     cn = dict(N=3, ncb=0, kind="native", gates=[G("RX", [0], a=0.5), G("GLOBALPHASE", a=0.25), G("RZ", [2], a=0.25), G("ISWAP", [2, 1]), G("SQRTISWAP", [0, 1])])
     c2 = dict(N=3, ncb=0, kind="2q", gates=[G("CNOT", [2], [0]), G("ISWAP", [2, 0]), G("SWAP", [2, 0])])
     cl = dict(N=3, ncb=0, kind="listarg", gates=[G("R", [1], a=[0.25, 0.5]), G("CNOT", [1], [0]), G("SWAP", [1, 0])])
-    cq = dict(N=3, ncb=2, kind="qasm", gates=[G("X", [0]), G("CNOT", [1], [0]), {"M": 0, "store": 0}])
+    cq = dict(N=3, ncb=2, kind="qasm", gates=[G("X", [0]), G("CNOT", [1], [0]), G("CRZ", [1], [0], a=0.25), G("SWAP", [0, 2]), G("TOFFOLI", [2], [0, 1]),
+                                              G("S", [1]), G("T", [2]), G("RX", [0], a=0.5), {"M": 0, "store": 0}])
     ce = dict(N=3, ncb=0, kind="quiet", gates=[G("GLOBALPHASE", a=0.25)])
     cz = dict(N=3, ncb=0, kind="quiet", gates=[])
     c0 = dict(N=3, ncb=0, kind="quiet", gates=[G("RX", [0], a=0.0), G("RZ", [1], a=0.0)])
-    base = dict(circs=[cu, cm, cn, c2, cl, cq, ce, cz, c0], cbits=[[0, 0], [1, 0], [1], []],
+    cb = dict(N=3, ncb=0, kind="bad-native", gates=[G("RX", [0], a=0.5), G("GLOBALPHASE", a=0.25), G("CNOT", [1], [0]), G("RZ", [2], a=0.25)])
+    base = dict(circs=[cu, cm, cn, c2, cl, cq, ce, cz, c0, cb], cbits=[[0, 0], [1, 0], [1], []],
                 sims=[dict(circ=1), dict(circ=1, dm=True), dict(circ=0)],
                 procs=[dict(kind="linear", N=3), dict(kind="circular", N=3, t1=50.0, t2=30.0), dict(kind="cqed", N=3),
                        dict(kind="linear", N=3, noise=[dict(kind="relax", t1=40.0, t2=20.0), dict(kind="amp")]), dict(kind="sc", N=3)],
@@ -1323,6 +1355,20 @@ def targeted_histories():
           dict(op="compile", comp=c, circ=2, sm="ASAP"), dict(op="compile", comp=0, circ=2, args=ARGS_MENU[a]), dict(op="compile", comp=0, circ=2, args=ARGS_MENU[a]),
           dict(op="compile", comp=1, circ=2, args=ARGS_MENU[a + 1]), dict(op="compile", comp=1, circ=2, args=ARGS_MENU[a + 1]))
         for c, a in ((2, 3), (3, 5), (5, 7), (2, 9), (3, 11), (2, 12))
+    ] + [
+        # exports and drawings repeated (module-level tables must not be changed by an export)
+        H("pass", dict(op="qasm", circ=5), dict(op="qasm", circ=5), dict(op="draw", circ=5), dict(op="draw", circ=5), dict(op="qasm", circ=5),
+          dict(op="propagators", circ=5), dict(op="qasm", circ=5), dict(op="reverse", circ=5)),
+    ] + [
+        # a REJECTED compile (unsupported gate in the middle, per-call args) between identical ordinary calls, then a rejected load
+        H("sched", dict(op="compile", comp=c, circ=2), dict(op="compile", comp=c, circ=9, args=ARGS_MENU[a]), dict(op="compile", comp=c, circ=2),
+          dict(op="compile", comp=c, circ=0, args=ARGS_MENU[a + 1], **{"as": "gates"}), dict(op="compile", comp=c, circ=2), dict(op="compile", comp=c, circ=2, sm="ASAP"),
+          dict(op="compile", comp=c, circ=9, sm="ASAP", args=ARGS_MENU[a + 2]), dict(op="compile", comp=c, circ=2, sm="ASAP"))
+        for c, a in ((0, 1), (1, 4), (2, 6), (5, 9))
+    ] + [
+        H("proc", dict(op="load", proc=p, circ=2, comp=c), dict(op="load", proc=p, circ=9, comp=c), dict(op="load", proc=p, circ=2, comp=c), dict(op="proc_pulses", proc=p),
+          dict(op="load", proc=p, circ=4), dict(op="load", proc=p, circ=2), dict(op="proc_pulses", proc=p))
+        for p, c in ((0, 2), (0, 0), (1, 5), (2, 3), (2, 1))
     ] + [
         # load/load with a shaped user compiler on every model processor, then inspection
         H("proc", dict(op="load", proc=p, circ=ci, comp=c), dict(op="load", proc=p, circ=ci, comp=c), dict(op="proc_pulses", proc=p),
